@@ -21,8 +21,9 @@ RULE = ("spelling groups derived from the op table and the registries at run tim
         "non-constant tensors while accepting constant ones with NumPy's values. Non-trivial: >=2 spellings compared; distinct = "
         "(function, spelling set, option keys, operand kinds).")
 ASSUMPTIONS = ["the first listed spelling (mg.f) is the reference; spellings are compared with each other, not with NumPy (C03 does that)"]
-TIERS = {"quick": {"cases": 3000}, "thorough": {"cases": 120000}}
-FLOORS = {"quick": {"spellings_compared": 4000, "negative_checks": 50}, "thorough": {"spellings_compared": 150000, "negative_checks": 50}}
+TIERS = {"quick": {"cases": 3000}, "thorough": {"cases": 400000}}
+FLOORS = {"quick": {"spellings_compared": 4000, "negative_checks": 50},
+          "thorough": {"spellings_compared": 20000, "negative_checks": 250}}
 
 GENS = [(B.g_unary, 12), (B.g_binary, 20), (B.g_matmul, 4), (B.g_reduce, 10), (B.g_cum, 3), (B.g_norm, 2), (B.g_einsum, 3), (B.g_where, 2),
         (B.g_clip, 3), (B.g_shape, 10), (B.g_join, 3), (B.g_repeat, 2)]
